@@ -22,12 +22,14 @@ type cacheIn struct {
 	Reuse   bool   `json:"reuse"`            // Reset and reuse one builder instead of a new builder per build
 	Case2   *eCase `json:"case2,omitempty"`  // with Reuse: the generations after the first Reset are built from THESE documents (same ids, changed conjunctions); they are what is compared, against a plain build of Case2
 	Retain  bool   `json:"retain,omitempty"` // the provider keeps the very slice Set was given (a plain map provider) instead of copying it
+	Trunc   int    `json:"trunc,omitempty"`  // percentage of Set calls that are CUT SHORT: the key is kept, the payload lost (a later Get answers found with zero bytes)
 }
 
 type lossyCache struct {
 	retain       bool
 	r            *Rand
 	miss, drop   int
+	trunc        int
 	data         map[be.ConjID][]byte
 	hits, resets int
 }
@@ -43,6 +45,10 @@ func (c *lossyCache) Get(id be.ConjID) ([]byte, bool) {
 }
 func (c *lossyCache) Set(id be.ConjID, data []byte) {
 	if c.r.Chance(c.drop) {
+		return
+	}
+	if c.trunc > 0 && c.r.Chance(c.trunc) {
+		c.data[id] = []byte{} // the write was cut short: the entry exists, its payload is lost
 		return
 	}
 	if c.retain {
@@ -69,7 +75,7 @@ func execCache(raw json.RawMessage) (res execResult, err error) {
 	if e != nil {
 		return res, e
 	}
-	cache := &lossyCache{retain: in.Retain, r: &Rand{s: uint64(in.Seed)}, miss: in.MissPct, drop: in.DropPct, data: map[be.ConjID][]byte{}}
+	cache := &lossyCache{retain: in.Retain, r: &Rand{s: uint64(in.Seed)}, miss: in.MissPct, drop: in.DropPct, trunc: in.Trunc, data: map[be.ConjID][]byte{}}
 	c := in.Case
 	var lits []string
 	var shared *be.IndexerBuilder
@@ -369,6 +375,7 @@ func init() {
 						c.Queries = append(c.Queries, eQuery{A: []eAssign{{F: 0, V: tvInt("int", 1)}, {F: 2, V: tvInt("int64", a+d)}}})
 					}
 					add(cacheIn{Cache: true, Case: c, Thr: 2, Seed: 7, MissPct: 0, DropPct: 0})
+					add(cacheIn{Cache: true, Case: c, Thr: 2, Seed: 107, MissPct: 0, DropPct: 0, Trunc: 60}) // some writes cut short: entries found with their payload lost
 				}
 			}
 			// dedicated: several expressions on default-container fields in one cached conjunction (two long lists of
@@ -401,6 +408,7 @@ func init() {
 						thr = 512
 					}
 					add(cacheIn{Cache: true, Case: c, Thr: thr, Seed: 11, MissPct: 0, DropPct: 0})
+					add(cacheIn{Cache: true, Case: c, Thr: thr, Seed: 111, MissPct: 0, DropPct: 0, Trunc: 60}) // some writes cut short: entries found with their payload lost
 					add(cacheIn{Cache: true, Case: c, Thr: thr, Seed: 13, MissPct: 0, DropPct: 0, Retain: true})
 					add(cacheIn{Cache: true, Case: c, Thr: thr, Seed: 12, MissPct: 30, DropPct: 30})
 				}
@@ -427,6 +435,7 @@ func init() {
 						eQuery{A: []eAssign{{F: 1, V: tvStr(t)}, {F: 0, V: tvInt("int", 1)}}})
 				}
 				add(cacheIn{Cache: true, Case: c, Thr: 2, Seed: 71, MissPct: 0, DropPct: 0})
+				add(cacheIn{Cache: true, Case: c, Thr: 2, Seed: 171, MissPct: 0, DropPct: 0, Trunc: 60}) // some writes cut short: entries found with their payload lost
 				add(cacheIn{Cache: true, Case: c, Thr: 2, Seed: 72, MissPct: 100, DropPct: 0})
 			}
 			// dedicated: value lists of a range field in every order and with repeats and gaps (ascending runs, a run with
@@ -467,6 +476,7 @@ func init() {
 				}
 				c.Queries = append(c.Queries, eQuery{A: []eAssign{{F: 3, V: tvStr("y")}}})
 				add(cacheIn{Cache: true, Case: c, Thr: 2, Seed: 51, MissPct: 0, DropPct: 0})
+				add(cacheIn{Cache: true, Case: c, Thr: 2, Seed: 151, MissPct: 0, DropPct: 0, Trunc: 60}) // some writes cut short: entries found with their payload lost
 				add(cacheIn{Cache: true, Case: c, Thr: 2, Seed: 52, MissPct: 0, DropPct: 0, Reuse: true})
 			}
 			// dedicated: a provider that keeps the very slice it is handed, and several cached conjunctions whose records
